@@ -130,7 +130,11 @@ def check(an: Analysis) -> None:
             ob3.fail(scope if kw["logger"] != want_l and not (kw["logger"] is None) else init, cn.ast if kw["logger"] != want_l and kw["logger"] is not None else lv[0], f"with {situation} the scope logs through {_show(fl)} instead of {_show(want_l)}")
         if ft != want_t:
             ob4.fail(scope if kw["trace_id"] != want_t and not (kw["trace_id"] is None) else init, cn.ast if kw["trace_id"] != want_t and kw["trace_id"] is not None else tv[0], f"with {situation} the scope's trace id is {_show(ft)} instead of {_show(want_t)}")
-    if not (isinstance(iv[0], ast.Attribute) and iv[0].attr == "hex" and isinstance(iv[0].value, ast.Call) and an.callee(init, iv[0].value) == "uuid.uuid4"):
+    iv0 = unwrap(iv[0])
+    for _hop in range(3):
+        if isinstance(iv0, ast.Name) and (sv_ := Deps(prog, init).single_value(iv0.id)) is not None:
+            iv0 = unwrap(sv_)  # computed into a local first
+    if not (isinstance(iv0, ast.Attribute) and iv0.attr == "hex" and isinstance(iv0.value, ast.Call) and an.callee(init, iv0.value) == "uuid.uuid4"):
         ob4.fail(init, iv[0], "the scope identifier is not a fresh uuid4().hex")
 
     # ------------------------------------------------------------------ C19.5 tag contents and emission / C19.6 formatting characters
@@ -306,6 +310,11 @@ class TextFlow:
                 return [_Leaf("scope", esc, brace, pct)]
             if fn is self.init and e.id == "trace_id":
                 return [_Leaf("trace_id", esc, brace, pct)]
+            if fn is self.init:
+                # a local that is also what __init__ stores as self.trace_id / self.identifier denotes that attribute
+                for attr_ in ("trace_id", "identifier"):
+                    if any(is_name(unwrap(v_), e.id) for v_ in self.cls.attr_val.get(attr_, [])) and len(d.defs(fn, e.id)) == 1:
+                        return [_Leaf(f"self.{attr_}", esc, brace, pct)]
             if d.owner(e.id) is not None and at is not None and (rds := sc.reaching_defs(at, e.id)):
                 # each reaching definition is expanded at its own position (`prefix = prefix.replace(..)` reads the earlier one)
                 out_: list[_Leaf] = []
